@@ -71,6 +71,13 @@ def ls_cases(ctx, nprob):
     for _ in range(nprob):
         p = g.gen_problem(ctx.rng)
         subs = g.gen_subsets(ctx.rng, p, 3)
+        if p["defect"]:
+            # a subset that certainly does not resolve the defect: unknowns on which a kernel vector vanishes
+            gk = ctx.rng.choice(p["kernel"])
+            zero = [i + 1 for i, v in enumerate(gk) if v == 0]
+            if zero:
+                S = sorted(ctx.rng.sample(zero, ctx.rng.randint(1, len(zero))))
+                subs.append((S, g.resolves(p, S)))
         seen = set()
         for S, ok in subs:
             if tuple(S) in seen:
@@ -831,14 +838,6 @@ def check_decision(ctx, corr, n):
         corr.count("nd_cases")
         corr.count("nd_style_" + style)
         if i in crashes:
-            # latent path of the real code (not reachable with the four solvers, see C20_adjusted_sound): the solver
-            # refuses but flags no unknown -> null_space() falls out of its loop with tst_vyrovnani_ still true ->
-            # GeneralParameters takes the network for adjusted and reads vectors that were never computed (UBSan).
-            # The model predicts exactly this verdict; the crash happens after it, in the printing code.
-            stale = any(("q=BadRegularization" in l or "r=BadRegularization" in l) and "flags=-" in l for l in c)
-            if stale and any(l.startswith("verdict adjusted") for l in model[i]):
-                corr.count("nd_stale_adjusted_path_ub_in_printing")
-                continue
             corr.fail("decision harness crashed / sanitizer report", rep, "LocalNetwork::null_space", crashes[i][1])
             continue
         for l in res:
@@ -887,6 +886,20 @@ def search(ctx, broken, corr):
 
 
 def classify(ctx, failure):
+    inp = failure.replay if isinstance(failure.replay, dict) else {}
+    w = failure.what
+    # F22: AdjEnvelope/Envelope::cholDec decides the rank with an ABSOLUTE pivot tolerance sqrt(eps) and no pivoting; when the
+    # ordering meets a small legitimate pivot (1e-6..1e-4: a coordinate fixed so far only by a nearly collinear
+    # observation) the rounding residue of a later dependent pivot is amplified above the tolerance, the defect of a
+    # free network is under-counted (2 instead of 3), the cofactors explode and vyrovnani_ strips every point.
+    # Signature: ONLY the envelope run deviates, by ending with 'No unknowns have been defined' where the other
+    # algorithm adjusts, on a free network.
+    if inp.get("stream") == "net" and re.match(
+            r"gama-local --algorithm envelope vs (cholesky|gso|svd): (exit status 1 vs 0; )?verdict "
+            r"'error:No unknowns have been defined' vs 'adjusted'", w):
+        g_ = inp.get("gkf", "")
+        if re.search(r'adj="[XYZ]+"', g_) and not re.search(r'fix="', g_):
+            return "F22"
     return None
 
 
